@@ -60,7 +60,7 @@ def generate(prng, tier, index):
         sc["policy"] = {"shuffle": prng.choice(("uniform", "uniform", "identity", "adjswap"))}
     ops = ["same"]
     for _ in range(prng.randrange(0, 5)):
-        ops.append(prng.choice(("same", "same", "fresh", "overall")))
+        ops.append(prng.choice(("same", "same", "fresh", "overall", "same_interrupted")))
     sc["ops"] = ops
     sc["names_prefix"] = prng.choice((ntop, ntop, ntop, max(1, ntop - 1)))
     sc["set_order"] = prng.choice(("natural", "natural", "reversed", "shuffled"))
@@ -211,6 +211,13 @@ def _execute(sc, ctx):
                 ctx.violate(f"{P}.overall", f"overall-degree matrix differs from the fraction of edge ends: got "
                                             f"{sorted(m.items())[:3]}, expected {sorted(ref.items())[:3]}")
                 return
+            continue
+        if op == "same_interrupted":
+            # interrupt an extraction on the SAME extractor at an arbitrary executed line; the next calls must be right
+            at = (k * 37 + len(sc["ops"]) * 11) % 160
+            st, _ = ctx.call(src, ext.get_ejks, abort_at_line=at, label="get_ejks[interrupted]")
+            if st == "abort":
+                ctx.probe("extraction_interrupted")
             continue
         if op == "fresh":
             try:
